@@ -87,7 +87,7 @@ _FENV = [1, 2, 3, 4, 5, 6, 7, 17, 18]
 
 
 def _note_fenv(spec):
-    spec['technique'] = spec.get('technique', '') + '; every case also under the directed rounding modes (configuration fenv)'
+    spec['technique'] = spec.get('technique', '') + '; every case also under the directed rounding modes and the three x87 precision-control settings (configuration fenv)'
     spec['assumptions'] = list(spec.get('assumptions', [])) + ['configuration fenv: each case runs under one of FE_DOWNWARD / FE_TOWARDZERO / FE_UPWARD / FE_TONEAREST '
                                                                '(a function of seed and case number); results that are integers, bytes, links or sequences must not depend on it']
 
